@@ -8,6 +8,8 @@ from . import markexplore as mx
 from .markdomain import MarkerTextError, Undefined, parse_marker_text, tree_mask
 
 ALL_NAMES = ["os_name", "sys_platform", "extra", "python_version", "python_full_version"]
+# names that are NOT mentioned by any explored marker but are substrings / superstrings of mentioned ones
+FOREIGN_NAMES = ["extras", "dependency_groups", "python", "name", "os_name_", "platform", "python_version_", "ext"]
 B = mx.STEP_BUDGET
 
 
@@ -81,7 +83,10 @@ def c12_u(dom, J, m):
             subsets.append(s)
             if foreign and k < 2:
                 subsets.append(s + (foreign[0],))
-    for S in subsets[:12]:
+    if names:
+        subsets.append(tuple(n + "s" for n in names))       # superstrings of every mentioned name: nothing may survive
+        subsets.append(tuple(n[:-1] for n in names))        # proper prefixes
+    for S in subsets[:14]:
         J.n += 1
         try:
             r = dom.call(m, "only", *S, budget=B)
@@ -100,7 +105,7 @@ def c12_u(dom, J, m):
         elif set(names) <= set(S) and dr != dm:
             J.fail("R12.1", dom.blame(f"{_cls(m)}.only"), f"({dom.show(m)}).only{S} -> {dom.show(r)} changes the meaning although m mentions only those names",
                    {"path": dom.path()})
-    for n in ALL_NAMES:
+    for n in ALL_NAMES + FOREIGN_NAMES:
         for meth, args in ((("exclude", (n,)),) + ((("without_extras", ()),) if n == "extra" else ())):
             J.n += 1
             try:
@@ -125,6 +130,18 @@ mx.register_u("c12", c12_u)
 
 # ------------------------------------------------------------------------------------------------ C07
 def c07_u(dom, J, m):
+    _c07_one(dom, J, m, "")
+    if m.cls in (dom.MM, dom.MU):
+        names = sorted(dom.names(m))
+        for meth, args in [("without_extras", ())] + [("exclude", (n,)) for n in names[:2]] + [("only", (n,)) for n in names[:2]]:
+            try:
+                r = dom.call(m, meth, *args, budget=B)
+            except PyRaise:
+                continue  # C12 / C15 report raising calls
+            _c07_one(dom, J, r, f" [= ({dom.show(m)}).{meth}{args}]")
+
+
+def _c07_one(dom, J, m, origin):
     J.n += 1
     try:
         text = dom.to_text(m)
@@ -140,7 +157,7 @@ def c07_u(dom, J, m):
             J.fail("R07.3", f"{_cls(m)}.__str__", f"empty marker renders as {text!r}, not '<empty>'")
         return
     if "<empty>" in text or not text.strip():
-        J.fail("R07.5", f"{_cls(m)}.__str__", f"{dom.show(m)} renders as {text!r}")
+        J.fail("R07.5", f"{_cls(m)}.__str__", f"{dom.show(m)} renders as {text!r}{origin}")
         return
     dm = dom.den(m)
     J.nontriv += 1
@@ -148,7 +165,7 @@ def c07_u(dom, J, m):
         tree = parse_marker_text(text)
         tm = tree_mask(dom.envs, tree)
     except MarkerTextError as e:
-        J.fail("R07.6", f"{_cls(m)}.__str__", f"str({dom.show(m)}) = {text!r} is not a valid PEP 508 marker: {e}")
+        J.fail("R07.6", f"{_cls(m)}.__str__", f"str({dom.show(m)}) = {text!r} is not a valid PEP 508 marker: {e}{origin}")
         return
     if tm != dm:
         J.fail("R07.1", f"{_cls(m)}.__str__", f"{dom.show(m)} renders as {text!r}, which under PEP 508 precedence means something else: "
